@@ -169,4 +169,7 @@ mod tests {
 #[allow(missing_docs, unused_imports, dead_code, clippy::all, clippy::pedantic, clippy::nursery)]
 pub mod verif_hooks {
     use super::*;
+
+    pub use super::Key;
+    pub use crate::crypto::CryptoKey;
 }
